@@ -400,11 +400,13 @@ IdealRemove(ws, P, ret) ==
       live == {j \in same : ws.uw[j].st = "live"}
       w1   == Unsuppress(Relax([ws EXCEPT !.uw = Without(@, same)], same), P)
   IN
+  \* (fog: an Add met a watch whose end was pending - which of the two readings holds is not known, results are not judged)
   IF live # {} THEN
-       (IF ret = "ok" THEN w1 ELSE Bad(w1, {"C04"} \cup (IF P \in ws.readded THEN {"C09"} ELSE {}), "remove_failed:" \o ret))
+       (IF ret = "ok" \/ ws.fog THEN w1 ELSE Bad(w1, {"C04"} \cup (IF P \in ws.readded THEN {"C09"} ELSE {}), "remove_failed:" \o ret))
   ELSE IF same # {} THEN
        (IF ret \in {"ok", "ErrNonExistentWatch", "errno:EINVAL"} THEN Note(w1, "remove_in_lag") ELSE Bad(w1, {"C04", "C09"}, "remove_ended:" \o ret))
   ELSE IF ret = "ErrNonExistentWatch" THEN Note(ws, "remove_nonexistent")
+  ELSE IF ws.fog THEN ws
   ELSE Bad(ws, {"C04"} \cup (IF P \in ws.gonePaths THEN {"C09"} ELSE {}), "remove_nonexistent:" \o ret)
 
 \* WatchList returned the sequence wl (wlnil: it returned nil)
